@@ -81,7 +81,7 @@ WORLD: "SimWorld | None" = None
 def _tracked_open(file, mode="r", *args, **kwargs):
     w = WORLD
     real = _REAL_IO_OPEN(file, mode, *args, **kwargs)
-    if w is None or not w.fs_active:
+    if w is None or not w.fs_active or w.quiet:
         return real
     if not any(c in mode for c in "wax+"):
         return real
@@ -127,6 +127,8 @@ class SimWorld:
         self.invocations: list[dict] = []   # leaf log
         self.exec_log: list[dict] = []      # executor log
         self.run_inputs: list[dict] = []    # initial payload of every run (orchestrator seam)
+        self.remote_exec = False            # RecordingExecutor emulates an out-of-process executor (fresh result objects)
+        self.cur_ctx_obj = None
         self.probes: dict[str, int] = {}
         self.sandbox = ""
         self._old_cwd = None
